@@ -6,6 +6,11 @@ independently written specification in SkVerif/Spec/C14*.lean, for ALL panels / 
 parameters.  Only theorems and non-vacuity examples live here; lemmas are in SkVerif/Lemmas/C14*.lean.
 -/
 import SkVerif.Lemmas.C14Panel
+import SkVerif.Lemmas.C14PAAPanel
+import SkVerif.Lemmas.C14Seg
+import SkVerif.Lemmas.C14Slide
+import SkVerif.Lemmas.C14InterpPanel
+import SkVerif.Lemmas.C14Impute3
 namespace SkVerif.C14
 open SkVerif SkVerif.C14
 
@@ -160,6 +165,279 @@ theorem tabularize_rows_preserved_in_order (X : Panel) (i : Nat) :
     (Spec.columnConcat X)[i]? = (X[i]?).map (fun inst => [inst.flatten]) := by
   simp [Spec.tabularize, Spec.columnConcat]
 
+/-! ## PAA -/
+
+/-- The running-sum loop of `_perform_paa_along_dim` (with its fractional carries) computes, for every
+series and every `1 ≤ k ≤ n` (dividing `n` or not), the mean of the step function over each of the `k`
+equal frames of length `n/k`. -/
+theorem paa_eq_frame_means_fractional (k : Nat) (xs : List Rat) (hk : 0 < k) (hkn : k ≤ xs.length) :
+    paaSeries k xs = Spec.paaSeries k xs := Lem.paaSeries_eq_spec k xs hk hkn
+
+/-- PAA on a panel (one or several equal-length columns): cell-wise, rows and columns in place. -/
+theorem paa_eq_spec (k : Nat) (X : Panel) (nc : Nat) (hX : WellShaped X) (hc : Columns X nc)
+    (heq : ColumnsEqualLength X nc) (hk : 0 < k) (hlen : ∀ inst ∈ X, ∀ c ∈ inst, k ≤ c.length) :
+    paa (.int k) X = .ok (Spec.paa k X) := Lem.paa_eq_spec k X nc hX hc heq hk hlen
+
+/-- the specification agrees with the textbook when `k` divides the length: block means -/
+theorem paa_frame_mean_dividing (k q : Nat) (xs : List Rat) (hn : xs.length = k * q) (hk : 0 < k) (hq : 0 < q)
+    (j : Nat) : Spec.frameMean k xs j = ((xs.drop (j * q)).take q).sum / (q : Rat) :=
+  Lem.frameMean_dividing k q xs hn hk hq j
+
+/-- exactly `k` values per series -/
+theorem paa_output_lengths_exact (k : Nat) (X : Panel) :
+    ∀ inst ∈ Spec.paa k X, ∀ c ∈ inst, c.length = k := by
+  intro inst hi c hc
+  obtain ⟨i0, _, rfl⟩ := List.mem_map.mp hi
+  obtain ⟨c0, _, rfl⟩ := List.mem_map.mp hc
+  exact Lem.paaSeries_spec_length k c0
+
+theorem paa_rows_preserved_in_order (k : Nat) (X : Panel) (i : Nat) :
+    (Spec.paa k X).length = X.length ∧
+    (Spec.paa k X)[i]? = (X[i]?).map (fun inst => inst.map (Spec.paaSeries k)) := by
+  simp [Spec.paa]
+
+/-- `num_intervals` must be an int in `1 … n` -/
+theorem paa_rejects_bad_num_intervals (n : Nat) (v : Int) (h : v ≤ 0 ∨ (n : Int) < v) :
+    paaCheck (.int v) n = .error .value ∧ paaCheck .notInt n = .error .type := by
+  constructor
+  · rcases h with h | h
+    · simp [paaCheck, h]
+    · have h1 : ¬ v ≤ 0 := by omega
+      have h2 : v > (n : Int) := h
+      simp [paaCheck, h1, h2]
+  · rfl
+
+/-! ## IntervalSegmenter -/
+
+/-- SPECIFICATION of fixed-interval segmentation into `k` intervals: the `k` consecutive near-equal
+blocks together are the series (nothing lost, nothing repeated), and there are `k` of them. -/
+theorem interval_segments_concat_eq_input (k : Nat) (xs : List Rat) (hk : 0 < k) :
+    (Spec.intervalSegments k xs).flatten = xs ∧ (Spec.intervalSegments k xs).length = k := by
+  refine ⟨Lem.intervalSegments_flatten k xs hk, ?_⟩
+  simp [Spec.intervalSegments, Lem.blocks_length, Lem.equalSizes_length _ k hk]
+
+/-
+FULL-STRENGTH STATEMENT (does NOT hold for the code, KNOWN FINDING iseg:count:last-point-of-each-interval-dropped):
+    iseg (.count k) X X = .ok (tbl.map (Spec.intervalSegments k))        for 1 ≤ k ≤ n / 2
+What the code computes instead is proved below: every interval loses its last point, because `fit`
+stores index arrays and `transform` slices `X[:, interval[0]:interval[-1]]` (end exclusive).
+-/
+theorem iseg_count_eq_spec_partial (k n : Nat) (X : Panel) (tbl : List (List Rat))
+    (ht : univariateTable X = .ok tbl) (hn : ∀ row ∈ tbl, row.length = n) (hk : 0 < k) (hkn : k ≤ n / 2) :
+    iseg (.count (k : Int)) X X = .ok (tbl.map (fun row => (Spec.intervalSegments k row).map List.dropLast)) :=
+  Lem.iseg_count k n X tbl ht hn hk hkn
+
+/-- the negation of the full-strength statement at a concrete witness -/
+theorem iseg_count_drops_last_point_witness :
+    iseg (.count 3) [[[1, 2, 3, 4, 5, 6, 7]]] [[[1, 2, 3, 4, 5, 6, 7]]] = .ok [[[1, 2], [4], [6]]] ∧
+    Spec.intervalSegments 3 [1, 2, 3, 4, 5, 6, 7] = [[1, 2, 3], [4, 5], [6, 7]] := by
+  decide
+
+/-- explicit `[start, end)` intervals: exactly those slices, one column per interval -/
+theorem iseg_rows_eq_spec (ivs : List (Nat × Nat)) (Xfit X : Panel) (tblf tbl : List (List Rat))
+    (hf : univariateTable Xfit = .ok tblf) (ht : univariateTable X = .ok tbl)
+    (hin : ∀ row ∈ tbl, ∀ iv ∈ ivs, iv.2 ≤ row.length) :
+    iseg (.rows (ivs.map (fun iv => [(iv.1 : Int), (iv.2 : Int)]))) Xfit X =
+      .ok (tbl.map (Spec.sliceSegments ivs)) := Lem.iseg_rows ivs Xfit X tblf tbl hf ht hin
+
+/-- explicit intervals that tile `[0, n)` (cut points `0 = c₀ ≤ … ≤ c_m = n`) give segments that
+together are the series -/
+theorem iseg_rows_tiling_concat_eq_input (cuts : List Nat) (xs : List Rat) (hs : cuts.Pairwise (· ≤ ·))
+    (h0 : cuts.head? = some 0) (hl : cuts.getLast? = some xs.length) :
+    (Spec.sliceSegments (Spec.cutsToIntervals cuts) xs).flatten = xs := by
+  have hmem : ∀ c ∈ cuts, c ≤ xs.length := by
+    intro c hc
+    obtain ⟨l, hl'⟩ : ∃ l, cuts = l ++ [xs.length] := by
+      rcases List.eq_nil_or_concat cuts with rfl | ⟨l, z, rfl⟩
+      · simp at hl
+      · simp at hl; exact ⟨l, by simp [hl]⟩
+    subst hl'
+    rcases List.mem_append.mp hc with h | h
+    · exact (List.pairwise_append.mp hs).2.2 c h xs.length (by simp)
+    · simp at h; omega
+  rw [Lem.cuts_flatten cuts xs hs hmem, h0, hl]
+  simp
+
+/-- number of intervals must be at most half the number of time points -/
+theorem iseg_count_rejects_too_many (k : Int) (X : Panel) (tbl : List (List Rat))
+    (ht : univariateTable X = .ok tbl) (h : ((((tbl.head?.getD []).length / 2 : Nat)) : Int) < k) :
+    isegFit (.count k) X = .error .value := by
+  have : ¬ (k ≤ ((((tbl.head?.getD []).length / 2 : Nat)) : Int)) := by omega
+  simp only [isegFit, ht, bind, Except.bind, this, not_false_eq_true, if_true]
+
+/-! ## SlidingWindowSegmenter -/
+
+/-- one window per time point; window `j`, offset `t` is the series at `j + t − ⌊w/2⌋` with positions
+outside the series replaced by the nearest end value (edge padding of `⌊w/2⌋`) -/
+theorem slidingWindow_eq_spec (w : Nat) (hw : 0 < w) (X : Panel) (tbl : List (List Rat))
+    (ht : univariateTable X = .ok tbl) (hne : ∀ row ∈ tbl, row ≠ []) :
+    slidingWindow (.int (w : Int)) X = .ok (tbl.map (Spec.slidingWindows w)) :=
+  Lem.slidingWindow_eq_spec w hw X tbl ht hne
+
+/-- exactly `n` windows of exactly `w` values -/
+theorem slidingWindow_output_lengths_exact (w : Nat) (xs : List Rat) :
+    (Spec.slidingWindows w xs).length = xs.length ∧ ∀ win ∈ Spec.slidingWindows w xs, win.length = w :=
+  Lem.slidingWindows_shape w xs
+
+/-- away from the ends a window is a contiguous stretch of the series -/
+theorem slidingWindow_interior (xs : List Rat) (i : Nat) (h : i < xs.length) :
+    Spec.clampGet xs (i : Int) = xs[i] := Lem.clampGet_inside xs i h
+
+theorem slidingWindow_rejects_bad_window (X : Panel) (tbl : List (List Rat)) (ht : univariateTable X = .ok tbl)
+    (w : Int) (hw : w ≤ 0) :
+    slidingWindow (.int w) X = .error .value ∧ slidingWindow .notInt X = .error .type := by
+  simp [slidingWindow, ht, bind, Except.bind, hw]
+
+/-! ## TSInterpolator -/
+
+/-- `interp1d` over `linspace(0,1,n)` evaluated at `q ∈ [0,1]` is the height of the polyline through
+`(i, y_i)` at position `q·(n−1)` -/
+theorem interp_is_polyline (ys : List Rat) (q : Rat) (hn : 2 ≤ ys.length) (h0 : 0 ≤ q) (h1 : q ≤ 1) :
+    Spec.IsLinInterp ys (q * ((ys.length - 1 : Nat) : Rat)) (interp1 (linspace01 ys.length) ys q) :=
+  Lem.interp1_isLinInterp ys q hn h0 h1
+
+/-- the height of the polyline at a position is unique (the relational specification is a function) -/
+theorem polyline_unique (ys : List Rat) (s v v' : Rat) (h : Spec.IsLinInterp ys s v)
+    (h' : Spec.IsLinInterp ys s v') : v = v' := Lem.isLinInterp_unique ys s v v' h h'
+
+/-- TSInterpolator(L): every cell (≥ 2 points, lengths may differ from cell to cell) becomes the `L`
+equally spaced samples of its polyline; rows and columns in place -/
+theorem interpolate_eq_spec (kind : CellKind) (hk : kind ≠ .array) (L : Nat) (hL : 0 < L) (X : Panel)
+    (hX : WellShaped X) (hlen : ∀ inst ∈ X, ∀ c ∈ inst, 2 ≤ c.length) :
+    interpolate kind (.int L) X = .ok (Spec.interpolate L X) :=
+  Lem.interpolate_eq_spec kind hk L hL X hX hlen
+
+/-- exactly the requested length in every cell, whatever the input lengths -/
+theorem interpolate_output_lengths_exact (L : Nat) (X : Panel) :
+    ∀ inst ∈ Spec.interpolate L X, ∀ c ∈ inst, c.length = L := by
+  intro inst hi c hc
+  obtain ⟨i0, _, rfl⟩ := List.mem_map.mp hi
+  obtain ⟨c0, _, rfl⟩ := List.mem_map.mp hc
+  exact Lem.resample_length L c0
+
+/-- resizing to the length a series already has returns it unchanged -/
+theorem interpolate_same_length_is_identity (ys : List Rat) (hn : 2 ≤ ys.length) :
+    Spec.resample ys.length ys = ys := Lem.resample_same_length ys hn
+
+/-- first and last sample are the first and last point -/
+theorem interpolate_keeps_endpoints (L : Nat) (ys : List Rat) (hn : 2 ≤ ys.length) (hL : 2 ≤ L) :
+    (Spec.resample L ys).head? = ys.head? ∧ (Spec.resample L ys).getLast? = ys.getLast? :=
+  Lem.resample_endpoints L ys hn hL
+
+theorem interpolate_rows_preserved_in_order (L : Nat) (X : Panel) (i : Nat) :
+    (Spec.interpolate L X).length = X.length ∧
+    (Spec.interpolate L X)[i]? = (X[i]?).map (fun inst => inst.map (Spec.resample L)) := by
+  simp [Spec.interpolate]
+
+theorem interpolate_rejects_bad_length (kind : CellKind) (v : Int) (hv : v ≤ 0) (X : Panel) :
+    interpolate kind (.int v) X = .error .value ∧ interpolate kind .notInt X = .error .value := by
+  simp [interpolate, interpNew, hv, bind, Except.bind]
+
+/-- KNOWN FINDING (interp:array-cells-rejected) -/
+theorem interpolate_array_cells_rejected_witness :
+    interpolate .array (.int 2) [[[1, 2, 4]]] = .error .attr ∧ Spec.interpolate 2 [[[1, 2, 4]]] = [[[1, 4]]] := by
+  decide +kernel
+
+
+/-! ## Imputer (single series, `none` = missing) -/
+
+/-- forward fill: position `i` holds the latest observation at or before `i` -/
+theorem ffill_eq_spec (z : OSeries) (i : Nat) (hi : i < z.length) :
+    (ffill z)[i]? = some (Spec.lastValidUpTo z i) := Lem.ffill_getElem? z i hi
+
+/-- backward fill: position `i` holds the earliest observation at or after `i` -/
+theorem bfill_eq_spec (z : OSeries) (i : Nat) (hi : i < z.length) :
+    (bfill z)[i]? = some (Spec.firstValidFrom z i) := Lem.bfill_getElem? z i hi
+
+/-- method "ffill"/"pad": forward fill, then whatever is still missing at the start is back-filled;
+    method "bfill"/"backfill": backward fill, then the end is forward-filled -/
+theorem impute_ffill_bfill_eq_spec (z : OSeries) (hz : z ≠ []) :
+    impute .ffill none none z = .ok (bfill (ffill (ffill z))) ∧
+    impute .bfill none none z = .ok (bfill (ffill (bfill z))) := by
+  have he := Lem.isEmpty_false_of_ne hz
+  constructor <;>
+    simp [impute, stage1, stage1Err, checkMethod, he, replaceMissing, bind, Except.bind, pure, Except.pure]
+
+/-- method "constant": observed values stay, every missing one becomes `value` -/
+theorem impute_constant_eq_spec (v : Rat) (z : OSeries) (hz : z ≠ []) :
+    impute .constant (some v) none z = .ok (Spec.fillWith v z) := Lem.impute_constant v z hz
+
+/-- method "mean": every missing value becomes the mean of the observed ones -/
+theorem impute_mean_eq_spec (z : OSeries) (hv : Spec.observed z ≠ []) :
+    impute .mean none none z = .ok (Spec.fillWith (Spec.mean (Spec.observed z)) z) := Lem.impute_mean z hv
+
+/-- method "median": every missing value becomes the middle of the sorted observed values
+(`sortRats` returns the sorted permutation, see `median_sort_is_sorted_perm`) -/
+theorem impute_median_eq_spec (z : OSeries) (hv : Spec.observed z ≠ []) :
+    impute .median none none z = .ok (Spec.fillWith (Spec.middle (sortRats (Spec.observed z))) z) :=
+  Lem.impute_median z hv
+
+theorem median_sort_is_sorted_perm (l : List Rat) :
+    (sortRats l).Perm l ∧ (sortRats l).Pairwise (fun a b => decide (a ≤ b) = true) := by
+  refine ⟨SkVerif.Lem.isortBy_perm _ l, ?_⟩
+  exact SkVerif.Lem.isortBy_pairwise (fun (a b : Rat) => decide (a ≤ b))
+    (by intro a b c h1 h2; simp only [decide_eq_true_eq] at *; exact le_trans h1 h2)
+    (by intro a b; simp only [Bool.or_eq_true, decide_eq_true_eq]; exact le_total a b) l
+
+/-- method "linear": a missing value between observations `(j, a)` and `(k, b)` gets the value of the
+straight line through them at its own position -/
+theorem impute_linear_eq_spec (z : OSeries) (hz : z ≠ []) (i j k : Nat) (a b : Rat) (hi : z[i]? = some none)
+    (hp : Spec.IsPrevValid z i j a) (hn : Spec.IsNextValid z i k b) :
+    ∃ r, impute .linear none none z = .ok r ∧
+      r[i]? = some (some (a + (b - a) * (((i : Rat) - (j : Rat)) / ((k : Rat) - (j : Rat))))) :=
+  ⟨_, Lem.impute_linear_eq z hz, Lem.impute_linear_interior z i j k a b hi hp hn⟩
+
+/-- method "nearest": a missing value between two observations takes the closer one (the earlier one
+on a tie) -/
+theorem impute_nearest_eq_spec (z : OSeries) (hz : z ≠ []) (i j k : Nat) (a b : Rat) (hi : z[i]? = some none)
+    (hp : Spec.IsPrevValid z i j a) (hn : Spec.IsNextValid z i k b) :
+    ∃ r, impute .nearest none none z = .ok r ∧ r[i]? = some (some (if i - j ≤ k - i then a else b)) :=
+  ⟨_, Lem.impute_nearest_eq z hz, Lem.impute_nearest_interior z i j k a b hi hp hn⟩
+
+/-- every method keeps every observed value, keeps the length, and leaves nothing missing as soon as
+one value is observed -/
+theorem impute_keeps_observed_and_length (m : Method) (value : Option Rat) (z r : OSeries)
+    (h : impute m value none z = .ok r) :
+    r.length = z.length ∧ (∀ (i : Nat) (v : Rat), z[i]? = some (some v) → r[i]? = some (some v)) ∧
+    (∀ (p : Nat) (v : Rat), z[p]? = some (some v) → ∀ x ∈ r, x ≠ none) :=
+  ⟨Lem.impute_length m value z r h, fun i v hv => Lem.impute_keeps_observed m value z r h i v hv,
+   fun p v hp => Lem.impute_complete m value z r h p v hp⟩
+
+/-
+FULL-STRENGTH STATEMENT for method "drift" (does NOT hold, KNOWN FINDING impute:drift:no-trend-values):
+    a missing position i gets  Spec.olsLineAt (bfill (ffill z)) i   (the fitted linear trend).
+What the code does is proved here: "drift" is forward/backward filling.
+-/
+theorem impute_drift_eq_ffill_bfill_partial (z : OSeries) (p : Nat) (v : Rat) (hp : z[p]? = some (some v)) :
+    impute .drift none none z = .ok (bfill (ffill z)) := Lem.impute_drift z p v hp
+
+theorem impute_drift_no_trend_witness :
+    impute .drift none none [none, some 5, some (-1)] = .ok [some 5, some 5, some (-1)] ∧
+    Spec.olsLineAt [5, 5, -1] 0 = 6 := by
+  decide +kernel
+
+/-
+FULL-STRENGTH STATEMENT for `missing_values = m` (does NOT hold for m = 0, KNOWN FINDING
+impute:missing-values-zero-ignored): every occurrence of `m` is treated as missing.
+-/
+theorem impute_missing_values_partial (m : Rat) (hm : m ≠ 0) (z : OSeries) :
+    replaceMissing (some m) z = z.map (fun x => if x = some m then none else x) :=
+  Lem.replaceMissing_nonzero m hm z
+
+theorem impute_missing_values_zero_ignored_witness :
+    impute .ffill none (some 0) [some 3, some 0, some 0] = .ok [some 3, some 0, some 0] ∧
+    impute .ffill none none [some 3, none, none] = .ok [some 3, some 3, some 3] := by
+  decide +kernel
+
+/-- `value` goes with method "constant" and only with it; unknown methods are rejected -/
+theorem impute_rejects_bad_configuration (z : OSeries) (v : Rat) (mv : Option Rat) (m : Method) (hm : m ≠ .constant) :
+    impute .constant none mv z = .error .value ∧ impute m (some v) mv z = .error .value ∧
+    impute .unknown none mv z = .error .value := by
+  refine ⟨by simp [impute, checkMethod, bind, Except.bind], by simp [impute, checkMethod, hm, bind, Except.bind], ?_⟩
+  simp only [impute, checkMethod, bind, Except.bind, stage1Err]
+  cases z <;> simp
+
+
 -- non-vacuity
 example : WellShaped [[[1, 2, 3], [4, 5]], [[6], [7, 8, 9, 10]]] :=
   ⟨by simp, by intro i hi; simp at hi; rcases hi with rfl | rfl <;> simp⟩
@@ -170,5 +448,20 @@ example : truncate .series (some 1) (some 3) [[[1, 2, 3], [4, 5, 7]]] [[[1, 2, 3
 example : Columns [[[1, 2, 3], [4, 5]], [[6, 0, 1], [7, 8]]] 2 := by
   intro i hi; simp at hi; rcases hi with rfl | rfl <;> rfl
 example : tabularize [[[1, 2, 3], [4, 5]], [[6, 0, 1], [7, 8]]] = .ok [[1, 2, 3, 4, 5], [6, 0, 1, 7, 8]] := by decide
+example : paaSeries 3 [1, 2, 3, 4, 5, 6, 7] = [12 / 7, 4, 44 / 7] := by decide +kernel
+example : univariateTable [[[1, 2, 3, 4]], [[5, 6, 7, 8]]] = .ok [[1, 2, 3, 4], [5, 6, 7, 8]] := by decide
+example : slidingWindow (.int 3) [[[1, 2, 3, 4]]] = .ok [[[1, 1, 2], [1, 2, 3], [2, 3, 4], [3, 4, 4]]] := by decide
+example : ([0, 3, 7] : List Nat).Pairwise (· ≤ ·) := by decide
+example : interpolate .series (.int 4) [[[1, 2, 3]]] = .ok [[[1, 5 / 3, 7 / 3, 3]]] := by decide +kernel
+example : Spec.IsPrevValid [none, some 1, none, none, some 4] 2 1 1 := by
+  refine ⟨by omega, rfl, ?_⟩
+  intro t h1 h2; omega
+example : Spec.IsNextValid [none, some 1, none, none, some 4] 2 4 4 := by
+  refine ⟨by omega, rfl, ?_⟩
+  intro t h1 h2
+  have : t = 3 := by omega
+  subst this; rfl
+example : impute .linear none none [none, some 1, none, none, some 4] = .ok [some 1, some 1, some 2, some 3, some 4] := by
+  decide +kernel
 
 end SkVerif.C14
